@@ -73,12 +73,63 @@ def diffs(a, b, path="co", out=None):
     return out
 
 
+def corpus_mode(files, outdir, out):
+    """files of the repository's corpus (all versions): read, write back, re-read with xdis"""
+    from xdis.load import load_module_from_file_object, write_bytecode_file
+    for path in files:
+        data = open(path, "rb").read()
+        label = os.path.basename(os.path.dirname(path)).replace("bytecode_", "")
+        case = {"version": label, "program": os.path.basename(path), "corpus": True}
+        base = os.path.join(outdir, "%s_c_%s_%s" % (out["host"], label, os.path.basename(path)))
+        try:
+            r1 = load_module_from_file_object(io.BytesIO(data), path, get_code=True)
+        except Exception as e:
+            case["status"] = "read-failed"
+            case["detail"] = "%s: %s" % (type(e).__name__, str(e)[:120])
+            out["cases"].append(case)
+            continue
+        vt = tuple(r1[0][:2])
+        case["magic_int"] = r1[2]
+        case["vt"] = list(vt)
+        hl = 16 if vt >= (3, 7) else (12 if vt >= (3, 3) else 8)
+        with open(base + ".orig.pyc", "wb") as f:
+            f.write(data)
+        try:
+            write_bytecode_file(base + ".new.pyc", r1[3], r1[2], r1[1] or 1, r1[5] or 0)
+        except Exception as e:
+            case["status"] = "writer-raised"
+            case["detail"] = "%s: %s" % (type(e).__name__, str(e)[:120])
+            for q in (base + ".new.pyc",):
+                if os.path.exists(q):
+                    os.unlink(q)
+            out["cases"].append(case)
+            continue
+        new = open(base + ".new.pyc", "rb").read()
+        from xdis.magics import magic2int
+        # the header is compared when the reader reports the file's own magic word (it reports another one for PyPy 3.2's
+        # magic 48 and for decrypted dropbox files) and the file is timestamp-based
+        case["header_same"] = True if (r1[1] is None or magic2int(data[:4]) != r1[2]) else new[:hl] == data[:hl]
+        try:
+            r2 = load_module_from_file_object(io.BytesIO(new), base + ".new.pyc", get_code=True)
+            d = diffs(r1[3], r2[3])
+        except Exception as e:
+            d = ["xdis cannot re-read its own output: %s: %s" % (type(e).__name__, str(e).replace("\n", " ")[-150:])]
+        case["status"] = "written"
+        case["reread_diff"] = d
+        case["files"] = [base + ".orig.pyc", base + ".new.pyc", hl]
+        out["cases"].append(case)
+
+
 def main():
     refdir, outdir = sys.argv[1], sys.argv[2]
     only = sys.argv[3].split(",") if len(sys.argv) > 3 and sys.argv[3] else None
     from xdis.load import load_module_from_file_object, write_bytecode_file
     from xdis.magics import magic2int
     out = {"host": "%d.%d.%d" % sys.version_info[:3], "cases": []}
+    if refdir.endswith(".json"):
+        corpus_mode(json.load(open(refdir)), outdir, out)
+        print(json.dumps(out))
+        return
     for ver in ("2.7", "3.6", "3.7", "3.8", "3.9", "3.10", "3.11", "3.12", "3.13"):
         if only and ver not in only:
             continue
